@@ -251,7 +251,8 @@ def dotted(rel: str) -> str:
 
 def graph_view(ev):
     """(modules, import edges, hierarchy edges) of an evaluable built by the real entry point."""
-    g = ev._graph._graph
-    imp = {(u, v) for u, v, d in g.edges(data=True) if not d["inherits"]}
-    hier = {(u, v) for u, v, d in g.edges(data=True) if d["inherits"]}
+    from vf.engine.stubs_graph import inner_digraph, split_edges
+
+    g = inner_digraph(ev)
+    imp, hier = split_edges(g)
     return set(g.nodes), imp, hier
